@@ -64,8 +64,8 @@ func beSequenceScenario(ch chain) engine.Scenario {
 		LQ, LP := len(ch.Q)-1, len(ch.P)-1
 		recv := c.Choose(2, "receiver") // 0: NewBasisExtender, 1: ShallowCopy of a used one
 		o1 := beOps[c.Choose(len(beOps), "first-op")]
-		lq1 := []int{LQ, 0}[c.Choose(2, "first-levelQ")]
-		lp1 := []int{LP, 0}[c.Choose(2, "first-levelP")]
+		lv := c.Choose(2, "first-levels") // the first call at the top levels or at the bottom ones
+		lq1, lp1 := []int{LQ, 0}[lv], []int{LP, 0}[lv]
 		o2 := beOps[c.Choose(len(beOps), "second-op")]
 		lq2 := c.Choose(LQ+1, "second-levelQ")
 		lp2 := c.Choose(LP+1, "second-levelP")
@@ -126,7 +126,7 @@ func evalOps(params rlwe.Parameters, gcts map[string]*rlwe.GadgetCiphertext) []e
 	LQ, LP := params.MaxLevelQ(), params.MaxLevelP()
 	Q, P := params.Q(), params.P()
 	var ops []evalOp
-	for _, lq := range []int{0, LQ / 2, LQ} {
+	for _, lq := range []int{0, LQ} {
 		lq := lq
 		for lp := 0; lp <= LP; lp++ {
 			lp := lp
@@ -198,6 +198,8 @@ func evalOps(params rlwe.Parameters, gcts map[string]*rlwe.GadgetCiphertext) []e
 	return ops
 }
 
+var gctCache = map[string]map[string]*rlwe.GadgetCiphertext{}
+
 func evaluatorSequenceScenario(ch chain, nQ, nP int) engine.Scenario {
 	name := fmt.Sprintf("evaluator/sequences/%s/nQ=%d/nP=%d", ch.name, nQ, nP)
 	Q, P := ch.Q[:nQ], ch.P[:nP]
@@ -207,21 +209,26 @@ func evaluatorSequenceScenario(ch chain, nQ, nP int) engine.Scenario {
 			fail(c, "C02/decompose/rlwe-parameters-rejected", "rlwe parameters Q=%v P=%v rejected: %v", Q, P, err)
 			return
 		}
-		// noise-free gadget ciphertexts (as in gadgetRecombineScenario), built once per leaf
-		gcts := map[string]*rlwe.GadgetCiphertext{}
-		for _, v := range []struct{ lp, b2 int }{{nP - 1, 0}, {0, 0}, {0, 16}} {
-			if v.lp < 0 {
-				continue
+		// noise-free gadget ciphertexts (as in gadgetRecombineScenario); read-only, shared by the leaves of a worker
+		ck := fmt.Sprint(N, CI, Q, P)
+		gcts, ok := gctCache[ck]
+		if !ok {
+			gcts = map[string]*rlwe.GadgetCiphertext{}
+			for _, v := range []struct{ lp, b2 int }{{nP - 1, 0}, {0, 0}, {0, 16}} {
+				if v.lp < 0 {
+					continue
+				}
+				key := fmt.Sprintf("gct(lp=%d,base2=%d)", v.lp, v.b2)
+				if _, ok := gcts[key]; ok {
+					continue
+				}
+				g := rlwe.NewGadgetCiphertext(params, 1, nQ-1, v.lp, v.b2)
+				if err := rlwe.AddPolyTimesGadgetVectorToGadgetCiphertext(constNTTMont(params.RingQ(), 3), []rlwe.GadgetCiphertext{*g}, *params.RingQP(), params.RingQ().NewPoly()); err != nil {
+					panic(err)
+				}
+				gcts[key] = g
 			}
-			key := fmt.Sprintf("gct(lp=%d,base2=%d)", v.lp, v.b2)
-			if _, ok := gcts[key]; ok {
-				continue
-			}
-			g := rlwe.NewGadgetCiphertext(params, 1, nQ-1, v.lp, v.b2)
-			if err := rlwe.AddPolyTimesGadgetVectorToGadgetCiphertext(constNTTMont(params.RingQ(), 3), []rlwe.GadgetCiphertext{*g}, *params.RingQP(), params.RingQ().NewPoly()); err != nil {
-				panic(err)
-			}
-			gcts[key] = g
+			gctCache[ck] = gcts
 		}
 		ops := evalOps(params, gcts)
 		// deterministic op order (map iteration above only builds the table; sort by name)
